@@ -69,7 +69,7 @@ def _has_seq(t):
 @st.composite
 def _case(draw, maxstages):
     naming = draw(st.sampled_from(["distinct", "same", "reuse", "reuse", "argn", "astnames"]))
-    cfg = typed.Cfg(naming=naming, method_form=0.0, odd_selectors=False, ifexp=draw(st.booleans()), first_on_seq=False, kwonly_in_called=True, dict_method_keys=True, duplicate_keys=False, seq_of_packages=True, starred_calls=True)
+    cfg = typed.Cfg(naming=naming, method_form=0.0, odd_selectors=False, ifexp=draw(st.booleans()), first_on_seq=False, kwonly_in_called=True, dict_method_keys=True, duplicate_keys=False, seq_of_packages=True, starred_calls=True, callable_fields=True)
     cx = typed.Ctx(draw, cfg)
     env = [("ds", typed.S(typed.EVT))]
     n = draw(st.integers(2, maxstages))
